@@ -62,8 +62,15 @@ def build_traces(path, tier, seed):
         if n % 3 == 1:       # raw counts: unit-size signal on a large baseline
             x = rng.standard_normal(n) + float(10.0 ** rng.uniform(3, 6))
             shape = "noise on a large offset"
-        s1 = np.asarray(stockwell.transform(x.copy()))
-        s2 = np.asarray(stockwell.transform_w_scipy_fft(x.copy()))
+        # both implementations on the SAME array, one after the other in either order (a record is still the record after it
+        # has been transformed), or on copies
+        xa = np.array(x, dtype=float)
+        if n % 2:
+            s2 = np.asarray(stockwell.transform_w_scipy_fft(xa))
+            s1 = np.asarray(stockwell.transform(xa if n % 4 == 1 else x.copy()))
+        else:
+            s1 = np.asarray(stockwell.transform(xa))
+            s2 = np.asarray(stockwell.transform_w_scipy_fft(xa if n % 4 == 0 else x.copy()))
         if s2.shape != s1.shape:
             s2 = np.full(s1.shape, np.nan + 0j)
         add({"kind": "full", "x": enc_seq(x), "rows": int(s1.shape[0]), "cols": int(s1.shape[1]), "s": [enc_cseq(r) for r in s1], "s2": [enc_cseq(r) for r in s2]},
@@ -79,12 +86,20 @@ def build_traces(path, tier, seed):
         add({"kind": "lin", "f": enc(f), "g": enc(g), "x": enc_cseq(np.ravel(s1)[idx]), "y": enc_cseq(np.ravel(sy)[idx]), "z": enc_cseq(np.ravel(sz)[idx])},
             {"kind": "lin", "n": n, "f": f, "g": g})
     big = [100, 200, 257, 1024] if tier == "quick" else [200, 256, 400, 511, 512, 777, 1000, 1023, 1024]
+    # lengths whose half is a multiple of a power of two, or one more (the frequency rows may be processed in blocks)
+    edge = [2 * (m * 2 ** e + r) + p for e in (5, 6, 7, 8) for m in (1, 2, 3) for r in (0, 1) for p in (0, 1) if 2 * (m * 2 ** e + r) + p <= 1024]
+    edge_pick = [258, 514] + [int(v) for v in rng.choice(edge, size=2 if tier == "quick" else 12, replace=False)]
+    big += edge_pick
     # (length, implementation): chosen independently of the parity; the longest admissible record goes through both
     plan = [(n, [stockwell.transform, stockwell.transform_w_scipy_fft][int(rng.integers(2))]) for n in big]
-    plan += [(big[-1], f) for f in (stockwell.transform, stockwell.transform_w_scipy_fft) if (big[-1], f) not in plan]
+    plan += [(n_, f) for n_ in [1024] + [v for v in big if v in edge] for f in (stockwell.transform, stockwell.transform_w_scipy_fft) if (n_, f) not in plan]
     for n, fn in plan:
         x, shape = gen.record(rng, n, amp=1.0)
-        s1 = np.asarray(fn(x.copy()))
+        xa = np.array(x, dtype=float)
+        if rng.integers(2):
+            other = stockwell.transform if fn is stockwell.transform_w_scipy_fft else stockwell.transform_w_scipy_fft
+            other(xa)                  # the same array went through the other implementation first
+        s1 = np.asarray(fn(xa))
         ncell = 60 if tier == "quick" else 400
         rr = rng.integers(1, s1.shape[0] + 1, size=ncell)
         cc = rng.integers(1, s1.shape[1] + 1, size=ncell)
